@@ -47,9 +47,33 @@ type c20Case struct {
 	Seed int64  `json:"seed"`
 	Size int    `json:"size"`
 	Cap  int    `json:"cap"` // spare capacity of the argument windows: 0 mixed per array, 1 all tight, 2 all generous
+	Sp   int    `json:"sp,omitempty"` // 1: the float data contain NaN, +Inf, -Inf, -0, the largest and the smallest positive double; 2: the same without NaN
+}
+
+// which special-values flavour an entry is run with (in addition to its ordinary cases).
+// OPEN OBSERVATIONS on the unchanged tree (reported, outside C20's quantifier "random inputs that are
+// unsorted and contain ties"): stats.MannWhitneyUTest never returns when a sample contains a NaN
+// (utest.go tie loop: merged[i] == v1 is false for NaN, i never advances); KDE.Bounds/PDF/CDF do not
+// return for NaN, +-Inf or +-MaxFloat64 data (bracket expansion / reflection series never terminate).
+// Those entries are therefore not run on such data - every other entry is.
+func c20SpecialFor(name string) int {
+	switch {
+	case strings.Contains(name, "KDE"):
+		return 0
+	case name == "stats.MannWhitneyUTest":
+		return 2
+	case name == "stats.Sample.Sort":
+		// "the in-place operation must change something" is demanded: with a NaN the weighted sort's
+		// plain < comparison may leave an unsorted sample as it is
+		return 2
+	}
+	return 1
 }
 
 var c20CapMode int
+var c20Special int
+
+var c20SpecialVals = []float64{math.NaN(), math.Inf(1), math.Inf(-1), math.Copysign(0, -1), math.MaxFloat64, 5e-324, math.Float64frombits(0x7ff8000000000123)}
 
 // an instantiated call
 type c20Inst struct {
@@ -257,6 +281,21 @@ func c20Data(rng *rand.Rand, n int) []float64 {
 	// make sure it is not sorted (n >= 3)
 	if n >= 2 && sort.Float64sAreSorted(xs) {
 		xs[0], xs[n-1] = xs[n-1]+1, xs[0]-1
+	}
+	if c20Special != 0 && n >= 3 { // special values at random places (sorting with NaN, -0 == 0 ties, overflow)
+		for k := 0; k < 1+n/8; k++ {
+			v := c20SpecialVals[rng.Intn(len(c20SpecialVals))]
+			if c20Special == 2 && v != v {
+				v = math.Inf(1)
+			}
+			xs[rng.Intn(n)] = v
+		}
+		if sort.Float64sAreSorted(xs) { // still not sorted (NaNs sort first)
+			xs[0], xs[n-1] = xs[n-1], xs[0]
+			if sort.Float64sAreSorted(xs) {
+				xs[0], xs[n-1] = 3, 2
+			}
+		}
 	}
 	return houseF(rng, xs)
 }
@@ -1096,7 +1135,7 @@ var c20StaticCovered = []string{
 	"stats.Sample.Sort", "graphalg.Reverse", "graphalg.NodeMarks.Mark", "graphalg.NodeMarks.Unmark",
 	"stats.LinearHist.Add", "stats.LogHist.Add",
 	"stats.TwoSampleTTest", "stats.TwoSampleWelchTTest", "stats.OneSampleTTest", "stats.BandwidthScott", "stats.BandwidthSilverman",
-	"vec.Vectorize", "stats.HistogramQuantile", "stats.HistogramIQR",
+	"vec.Vectorize",
 }
 
 // API functions that cannot be called from inside the harness, with the reason (reported in
@@ -1177,6 +1216,17 @@ func c20RunAPI(c c20Case) (*Line, error) {
 	if err != nil {
 		return nil, fmt.Errorf("API scan failed: %v", err)
 	}
+	// the scan must SEE what the table calls: a scan that has gone blind (wrong directory, a parse
+	// that silently yields nothing) would otherwise report "nothing uncovered"
+	inAPI := map[string]bool{}
+	for _, a := range api {
+		inAPI[a.Name] = true
+	}
+	for _, n := range c20StaticCovered {
+		if !inAPI[n] {
+			return nil, fmt.Errorf("API scan is blind: it does not find %s, which the table calls (%d functions found)", n, len(api))
+		}
+	}
 	ok := true
 	if strings.HasPrefix(c.Call, "@unlisted:") {
 		name := strings.TrimPrefix(c.Call, "@unlisted:")
@@ -1217,6 +1267,10 @@ func c20Run(raw []byte) (*Line, error) {
 		return nil, fmt.Errorf("bad cap mode")
 	}
 	c20CapMode = c.Cap
+	if c.Sp < 0 || c.Sp > 2 {
+		return nil, fmt.Errorf("bad sp")
+	}
+	c20Special = c.Sp
 	c20Floats, c20Scramble = nil, nil
 	c20BackF, c20BackI = map[*float64][]float64{}, map[*int][]int{}
 	inst := mk()()
@@ -1266,10 +1320,12 @@ func c20Run(raw []byte) (*Line, error) {
 	}
 	// 2. history: unrelated calls, then the same call on freshly built equal arguments
 	hr := rand.New(rand.NewSource(c.Seed ^ 0x5eed))
+	c20Special = 0 // the unrelated calls run on ordinary data
 	for k := 0; k < 4; k++ {
 		o := &c20Table[hr.Intn(len(c20Table))]
 		c20Call1(o.build(rand.New(rand.NewSource(hr.Int63())), 3+hr.Intn(20))())
 	}
+	c20Special = c.Sp
 	det := eqU(r1, c20Call1(mk()()))
 	// ... also when the SAME buffers hold different data at a later call (a cache keyed by slice
 	// identity would go stale): overwrite the argument arrays in place with other values v2 and
@@ -1426,6 +1482,9 @@ func c20Gen(tier string, rng *rand.Rand, emit0 func(interface{})) {
 				size = 5 - r // 2 and 1: the smallest inputs, special-cased paths
 			}
 			emit(c20Case{Call: c.name, Seed: rng.Int63(), Size: size, Cap: (r + 2) % 3})
+			if sp := c20SpecialFor(c.name); sp != 0 && r%3 == 1 { // the same entry on data with NaN, +-Inf, -0, extremes
+				emit(c20Case{Call: c.name, Seed: rng.Int63(), Size: size, Cap: r % 3, Sp: sp})
+			}
 			if strings.HasPrefix(c.name, "mathx.") { // scalar calls are cheap: many more parameter draws
 				for x := 0; x < 15; x++ {
 					emit(c20Case{Call: c.name, Seed: rng.Int63(), Size: size})
